@@ -433,6 +433,37 @@ def cRun (sticky : Bool) (c : CConn) : List CAct → CConn × List ROut
     let rest := cRun sticky r.1 as
     (rest.1, r.2 ++ rest.2)
 
+/-! ## The client's read loop: `Client.Stream`, then `ReadMessage` until a read fails
+(websocket_client.go:440-505)
+
+`Client.Stream` writes the request on the connection of its destination and hands back a `StreamingConn`;
+the usual caller then reads until a read returns an error.  `readMsg` hands back one decoded message per
+data frame, in the order of the frames; a close frame comes back as a `*websocket.CloseError` (1000 when
+the service ended the stream, 1002 when the server gave up) and every later read fails too.  The loop is
+a function of the frames the server has written so far — whatever server wrote them. -/
+
+def Frame.isData : Frame → Bool
+  | .data _ _ => true
+  | _ => false
+
+/-- how the loop stands after the frames written so far: it has been handed a close error (`normal`: code
+1000) and has ended, or it waits in `ReadMessage` for the next frame -/
+inductive CEnd where
+  | closed (normal : Bool)
+  | waiting
+  deriving Repr, DecidableEq
+
+/-- the values handed to the caller (channel, value), in order, and where the loop stands -/
+def clientLoop : List Frame → List (Nat × Nat) × CEnd
+  | [] => ([], .waiting)
+  | .data k v :: rest => ((k, v) :: (clientLoop rest).1, (clientLoop rest).2)
+  | .closeNormal :: _ => ([], .closed true)
+  | .closeError :: _ => ([], .closed false)
+
+/-- the number of `ReadMessage` calls that have returned -/
+def clientReads (fs : List Frame) : Nat :=
+  (clientLoop fs).1.length + (match (clientLoop fs).2 with | .closed _ => 1 | .waiting => 0)
+
 /-! ## Line-protocol driver
 
 The harness drives the client and the service of one or more streaming connections step by step
@@ -575,6 +606,21 @@ def step (s : State) (toks : List String) : State × String :=
       match c.st.s2c[c.read]? with
       | some f => (put s { c with read := c.read + 1 }, showFrame f)
       | none => (s, "timeout")
+    | none => (s, "bad-op")
+  | ["cdrain", n] =>
+    -- the read loop of onet's client (`clientLoop`) on the frames it has not read yet: every value in
+    -- order, then the close it ends with (`c15_client_receives_in_order_and_complete`)
+    match find s n with
+    | some c =>
+      let r := clientLoop (c.st.s2c.drop c.read)
+      -- canonical form: channel by channel (the order between channels is the forwarders' business)
+      let groups := (List.range c.st.streams.length).filterMap fun k =>
+        let vs := (r.1.filter (fun p => p.1 == k)).map (fun p => toString p.2)
+        if vs.isEmpty then none else some (s!" {k}:" ++ ",".intercalate vs)
+      let head := "drain" ++ String.join groups ++ " | "
+      match r.2 with
+      | .closed b => (put s { c with read := c.read + r.1.length + 1 }, head ++ (if b then "close 1000" else "close 1002"))
+      | .waiting => (put s { c with read := c.read + r.1.length }, head ++ "timeout")
     | none => (s, "bad-op")
   | ["cleave", n, _how] =>
     match find s n with
